@@ -679,7 +679,30 @@ def rule_i(ctx, out):
         raise AnalysisError(f"only {n} unary folds evaluated")
 
 
+def rule_j(ctx, out):
+    """The tables the rules consult answer the same every time they are asked.  The side conditions of the type-1 rules are membership tests
+    in tables (`inp_vars[0] in int_not0`), several per rule and per block; a table bound to a one-shot iterator (map / filter / zip / a
+    generator expression) answers the first test and is empty afterwards, so the rule decides "is the all-ones mask" for one operand and
+    "is not" for the same operand a line later, and returns the wrong operand.  (The abstract evaluation of C03.a models `map` as a list,
+    like every evaluator of pure code would: laziness is decided here, on the bindings.)"""
+    from ..core.idioms import one_shot_iterators_reused
+    n = 0
+    for f, name, bind, use in one_shot_iterators_reused(ctx, ("sfs_generator.",)):
+        n += 1
+        if bind is None:
+            out.instances += 1
+            out.satisfied += 1
+            continue
+        where_f = f if f is not None else ctx.p.module("sfs_generator.gasol_optimization")
+        out.bad(f"one-shot-iterator-consulted-again:{name}", f"`{name}` is bound to a one-shot iterator (`{short(bind, 60)}`, line {bind.lineno}) and consulted "
+                f"again (`{short(getattr(use, '_parent', use), 60)}` in {f.name if f else 'the module'}, line {use.lineno}): after the first membership test "
+                f"or loop the iterator is exhausted and every later test answers as if the table were empty", where(where_f, use))
+    if n < 1000:
+        raise AnalysisError(f"only {n} bindings examined in sfs_generator")
+
+
 RULES = [
+    ("C03.j", "tables consulted by the rules are containers, not one-shot iterators", 1000, rule_j),
     ("C03.i", "unary folds are EVM arithmetic for string and int constants alike", 20, rule_i),
     ("C03.h", "sub-expressions are shared only when every operand agrees", 150, rule_h),
     ("C03.g", "type-1 rule application preserves the denotation", 500, rule_g),
